@@ -2019,13 +2019,30 @@ fn emit_switch_via_br_table(
     } else {
         sel_payload
     };
+    let table_size = (max as usize) + 1;
     // `br_table` requires an I32 selector. Inputs may arrive as I64 (the
-    // default scalar size) or I128 (wide selector); coerce.
+    // default scalar size) or I128 (wide selector); coerce.  A selector wider
+    // than the index must not alias into the table by truncation: any value
+    // above the largest arm is sent past the end of the table (→ default).
     let sel_ty = builder.func.dfg.value_type(sel_clean);
     let sel_clean = if sel_ty == I32 {
         sel_clean
     } else if sel_ty.bits() > 32 {
-        builder.ins().ireduce(I32, sel_clean)
+        let (lo, hi_set) = if sel_ty.bits() > 64 {
+            let (lo, hi) = builder.ins().isplit(sel_clean);
+            (lo, Some(builder.ins().icmp_imm(IntCC::NotEqual, hi, 0)))
+        } else {
+            (sel_clean, None)
+        };
+        let mut out_of_table = builder
+            .ins()
+            .icmp_imm(IntCC::UnsignedGreaterThan, lo, max as i64);
+        if let Some(hi_set) = hi_set {
+            out_of_table = builder.ins().bor(out_of_table, hi_set);
+        }
+        let low = builder.ins().ireduce(I32, lo);
+        let past_end = builder.ins().iconst(I32, table_size as i64);
+        builder.ins().select(out_of_table, past_end, low)
     } else {
         builder.ins().uextend(I32, sel_clean)
     };
@@ -2034,7 +2051,6 @@ fn emit_switch_via_br_table(
     let default_block = builder.create_block();
     let final_block = builder.create_block();
 
-    let table_size = (max as usize) + 1;
     let mut entries: Vec<_> = (0..table_size)
         .map(|_| builder.func.dfg.block_call(default_block, &[]))
         .collect();
